@@ -24,7 +24,7 @@ Must(name, ok) == IF ok THEN TRUE ELSE PrintT(<<"HVIOL", name, l>>)
 Resp(n) == IF n >= 1 /\ n <= Len(hc.script) THEN hc.script[n] ELSE [status |-> 200, ra |-> -1, err |-> "none", mode |-> "buffered"]
 \* the documented retryable outcomes
 RetryableStatus(s) == s = 429 \/ (s >= 500 /\ s # 501)
-Retryable(r) == IF r.err # "none" THEN r.err = "conn" ELSE RetryableStatus(r.status)
+Retryable(r) == IF r.err # "none" THEN r.err \in {"conn", "attemptdl"} ELSE RetryableStatus(r.status)
 \* Retry-After (seconds, only honoured on 429 and 503) -> delay in units
 RetryAfter(r) == IF r.err = "none" /\ r.status \in {429, 503} /\ r.ra >= 0 THEN r.ra * hc.unitsPerSec ELSE 0
 
@@ -99,7 +99,14 @@ HNilInner ==
 HDone == l = Len(Trace) + 1 /\ PrintT("TRACE-ACCEPTED") /\ l' = l + 1 /\ UNCHANGED <<hc, att, lastEnd, lastStart, fin>>
 
 HInit == l = 1 /\ hc = [script |-> <<>>, maxRetries |-> 0, unitsPerSec |-> 1, policies |-> <<>>, seekFailFrom |-> 0] /\ att = 0 /\ lastEnd = 0 /\ lastStart = 0 /\ fin = FALSE /\ TLCSet(1, 1)
-HNext == HConfig \/ HReq \/ HFinal \/ HQuiesce \/ HNilInner \/ GCall \/ GFinal \/ HDone
+\* C19: hedged attempts that all end with a response the hedge policy does not accept (loopback server, N sequential executions):
+\* the response that is not handed to the caller is released - closed, or its attempt's context cancelled
+HHedgeLosers ==
+  /\ l <= Len(Trace) /\ Line.ev = "HedgeLosers"
+  /\ Must("hedgeLoserReleased", Line.executions >= 1 /\ Line.responses >= 2 * Line.executions /\ Line.unreleased = 0)
+  /\ UNCHANGED <<hc, att, lastEnd, lastStart, fin>> /\ l' = l + 1
+
+HNext == HConfig \/ HReq \/ HFinal \/ HQuiesce \/ HNilInner \/ HHedgeLosers \/ GCall \/ GFinal \/ HDone
 HSpec == HInit /\ [][HNext]_hvars
 ProgressPrint == IF TLCGet(1) < l THEN PrintT(<<"HWM", l>>) /\ TLCSet(1, l) ELSE TRUE
 =============================================================================
